@@ -1171,6 +1171,11 @@ fn execute(scn: &BScn, property: &str) -> RunOutcome {
             let mut expected: Vec<AnimationState> = Vec::new();
             if target_changed {
                 expected.push(after.state);
+            } else if retargeted && twin.is_none() && before.state != AnimationState::None && after.state == AnimationState::None {
+                // the selector moved to a key without a timeline: the animator went from whatever
+                // it was doing to None - a state change like any other, to be announced
+                expected.push(AnimationState::None);
+                out.count("probe.lost_timeline_while_animating");
             }
             if let (Some((sb, _, _)), Some((sa, _, _))) = (before.other, after.other) {
                 if sa != sb {
